@@ -19,6 +19,8 @@ Verdict = the property evaluated on the IMPLEMENTATION's output:
                            connection is not closed / the teardown has not run exactly once
   viol:write-after-close-accepted  (wac) after a close, a write entry point returned nil for the given
                            (state, protocol, packet kind): the packet was accepted by a closed connection
+  viol:socket-left-open    every goroutine returned, a close trigger existed (the read loop ended), but net.Conn.Close was
+                           never called (e.g. a parent-context cancellation mistaken for a completed close)
   viol:not-closed          a close trigger existed but the connection is not reported closed
   viol:panic-escaped       a handler panic left the read loop
 -/
@@ -29,7 +31,7 @@ def parseApi (s : String) : Option Api :=
   match s with
   | "ck" => some (.close true) | "cu" => some (.close false) | "cw" => some .closeWith
   | "wp" => some .writeFlush | "wr" => some .writeFlush | "bp" => some .buffer | "bl" => some .buffer
-  | "fl" => some .flush | "gc" => some .guardedClose
+  | "fl" => some .flush | "gc" => some .guardedClose | "cp" => some .cancelParent
   | "fn" => some (.failNet .generic) | "fnp" => some (.failNet .closedPipe) | "fne" => some (.failNet .epipe)
   | "fnr" => some (.failNet .connReset) | "fnc" => some (.failNet .netClosed) | "fnt" => some (.failNet .timeout)
   | _ => if s.startsWith "sh" then (s.drop 2).toString.toNat?.map Api.setHandler else none
@@ -67,7 +69,10 @@ def runReader (fuel : Nat) (c : Conn) : Option Conn :=
     match step true c 1 with
     | none => none
     | some c1 =>
-      let c2 := runWhile true (fun st => !st.isEmpty && !isReadLoopHead st) fuel c1 1
+      let c2a := runWhile true (fun st => !st.isEmpty && !isReadLoopHead st) fuel c1 1
+      -- the real loop evaluates `!Closed(c)` right after the handler returned, before it blocks in Read again:
+      -- if the connection reports closed at that point the loop leaves now (and runs closeKnown)
+      let c2 := if c2a.cancelled then runWhile true (fun st => !st.isEmpty) fuel c2a 1 else c2a
       match c2.threads[1]? with
       | some st => if st.isEmpty || isReadLoopHead st then some c2 else none
       | none => some c2
@@ -119,7 +124,7 @@ def scn (hs : List Handler) (active : Option Nat) (events : List String) (impl :
     -- the model deadlocks; it does so only when a Disconnected() body calls Close()/Flush()
     ("hang", if impl = "hang" then (if handlersTouchy hs then "-" else "viol:deadlock") else "-")
   | some c =>
-    let out := s!"res={if o.res.isEmpty then "-" else ",".intercalate o.res} pre={pre} disc={showDisc c.disc} handled={c.handled} panics={c.panics} closed={b2s c.cancelled} escaped=0"
+    let out := s!"res={if o.res.isEmpty then "-" else ",".intercalate o.res} pre={pre} disc={showDisc c.disc} handled={c.handled} panics={c.panics} closed={b2s c.cancelled} net={b2s c.netClosed} escaped=0"
     let verdict :=
       if impl = "hang" then "viol:deadlock" else
       let get := fun (k : String) => ((impl.splitOn " ").findSome? fun kv => match kv.splitOn "=" with
@@ -139,6 +144,7 @@ def scn (hs : List Handler) (active : Option Nat) (events : List String) (impl :
       if get "escaped" != "0" then "viol:panic-escaped"
       else if wroteErr && !preOK then "viol:write-error-not-closed"
       else if get "closed" != "1" then "viol:not-closed"
+      else if get "net" != "1" then "viol:socket-left-open"
       else if active.isSome && idisc != 1 then "viol:teardown-count"
       else if idisc > 1 then "viol:teardown-count"
       else if lateBad then "viol:write-after-close"
